@@ -152,6 +152,11 @@ func (e Float32Engine) FMA(a, x, y Tensor) (retVal Tensor, err error) {
 
 func (e Float32Engine) FMAScalar(a Tensor, x interface{}, y Tensor) (retVal Tensor, err error) {
 	reuse := y
+	if !a.Shape().Eq(y.Shape()) || !a.DataOrder().HasSameOrder(y.DataOrder()) {
+		// operands of different shapes or data orders are the default engine's business (it refuses, reshapes or walks them
+		// by coordinate)
+		return e.StdEng.FMAScalar(a, x, y)
+	}
 	if err = e.checkTwo(a, reuse); err != nil {
 		return nil, errors.Wrap(err, "Failed checks")
 	}
